@@ -181,9 +181,14 @@ pub fn gen(args: &Args, out: &mut dyn Write) {
         emit(out, json!({"op": "trig", "ab": hx(((rng.unit_f64() - 0.5) * 4000.0) as f32)}));
         // vectors over several magnitudes, axis-aligned and near-axis ones
         // (every 4th far below 1e-6 - "near-zero" yet non-zero -, every 4th around 1e3..1e6)
-        let mag = 2f64.powi(match i % 4 { 1 => rng.range(-30, -18), 3 => rng.range(10, 20), _ => rng.range(-6, 6) } as i32);
+        // (every 8th: lengths of 1e-20..1e-19, whose SQUARES are subnormal numbers - still precise to 1e-4)
+        let deep = i % 8 == 5;
+        let mag = 2f64.powi(if deep { rng.range(-66, -63) } else { match i % 4 { 1 => rng.range(-30, -18), 3 => rng.range(10, 20), _ => rng.range(-6, 6) } } as i32);
         let mut c: Vec<f32> = (0..3).map(|_| ((rng.unit_f64() - 0.5) * 2.0 * mag) as f32).collect();
-        match i % 7 {
+        if deep {
+            c[0] = (mag * (0.5 + rng.unit_f64() * 0.5)) as f32 * if rng.chance(1, 2) { -1.0 } else { 1.0 };
+        }
+        match if deep { 6 } else { i % 7 } {
             0 => c[1] = 0.0,
             1 => { c[0] = 0.0; c[2] = 0.0 }
             2 => { c[0] = (mag * 2e-4) as f32; c[2] = 0.0; c[1] = mag as f32 } // nearly along +y
